@@ -220,6 +220,9 @@ type DCase struct {
 	// messages have remaining lengths at the 2/3-byte and 3/4-byte boundaries of the
 	// length encoding and at the largest packet the buffer takes in (BufSize-8192).
 	BufSize int `json:"bufsize,omitempty"`
+	// Coalesce: the server writes its CONNACK and a first QoS 1 PUBLISH (a message that was
+	// waiting for the client; no subscription of the script matches its topic) in one piece.
+	Coalesce bool `json:"coalesce,omitempty"`
 }
 
 type invocation struct {
@@ -258,11 +261,22 @@ func runDispatch(c DCase) (res dresult) {
 			res.Classes = append(res.Classes, k)
 		}
 	}()
-	s, err := connectBuf(nil, c.BufSize)
+	var connack []byte
+	if c.Coalesce {
+		connack = append([]byte{0x20, 2, 0, 0}, codec.Encode(&codec.Packet{Type: codec.PUBLISH, QoS: 1, PacketID: 4242, Topic: []byte("zz/early"), Payload: []byte("early")})...)
+	}
+	s, err := connectBuf(connack, c.BufSize)
 	if err != nil {
 		return dresult{Incon: err.Error()}
 	}
 	defer s.close()
+	if c.Coalesce {
+		cls["publish-in-one-piece-with-the-connack"] = true
+		a, err := s.srv.Take(func(p *codec.Packet) bool { return p.Type == codec.PUBACK }, 3*time.Second)
+		if err != nil || a.PacketID != 4242 {
+			return dresult{Fail: fmt.Sprintf("the server wrote its CONNACK (code 0) and a QoS 1 PUBLISH with identifier 4242 in one piece; Client.Connect succeeded, the PUBLISH was answered by %v (%v; stream error %v), expected PUBACK with that identifier", a, err, s.srv.StreamErr())}
+		}
+	}
 	if c.BufSize > 16384 {
 		cls[fmt.Sprintf("client-buffers-%dKiB", c.BufSize/1024)] = true
 	}
@@ -668,6 +682,7 @@ func genDispatch(t *rapid.T, q2heavy bool) DCase {
 			}
 		}
 	}
+	c.Coalesce = rapid.IntRange(0, 4).Draw(t, "coalesce") == 0
 	return c
 }
 
